@@ -597,6 +597,7 @@ func (L *prodLog) genEdits(r *gen.Rand, byteBudget int, light bool, yield func(e
 	if format == "json" {
 		for _, i := range L.prot {
 			L.jsonEdits(r, i, yield)
+			L.jsonTypeEdits(i, yield)
 		}
 	}
 }
@@ -675,6 +676,142 @@ func (L *prodLog) jsonEdits(r *gen.Rand, i int, yield func(edit)) {
 			}
 		}
 		yield(L.inPlace("json-fold-two-members-into-one-name", "key:"+regionName(p[0].key)+"+"+regionName(p[1].key), i, build(parts), false))
+	}
+}
+
+// literalKind: s is, verbatim, the spelling of a JSON number / boolean / null ("" otherwise).
+func literalKind(s string) string {
+	switch s {
+	case "true", "false":
+		return "boolean"
+	case "null":
+		return "null"
+	}
+	if s == "" || !strings.ContainsRune("-0123456789", rune(s[0])) || !strings.ContainsRune("0123456789", rune(s[len(s)-1])) {
+		return ""
+	}
+	for _, c := range s {
+		if !strings.ContainsRune("-+.eE0123456789", c) {
+			return ""
+		}
+	}
+	if !json.Valid([]byte(s)) {
+		return ""
+	}
+	return "number"
+}
+
+// tokenKind names the type of a non-string JSON value token ("" for objects and arrays).
+func tokenKind(tok []byte) string {
+	if len(tok) == 0 {
+		return ""
+	}
+	switch c := tok[0]; {
+	case c == 't' || c == 'f':
+		return "boolean"
+	case c == 'n':
+		return "null"
+	case c == '-' || (c >= '0' && c <= '9'):
+		return "number"
+	}
+	return ""
+}
+
+const sepWord = "delimiter" // logging.JSONKeyValueDelimiter (checked at start-up)
+
+// jsonTypeEdits: edits of ONE member that keep the spelling of its value but change the TYPE or the STRUCTURE of the entry.
+//   - a string value that spells a number / true / false / null is replaced by that literal, and a number / boolean / null
+//     value by the string of the same spelling ("attempts":"3" <-> "attempts":3);
+//   - a string member is moved into the string value of the member that precedes it in the authenticated (sorted) order,
+//     spelled value + separator word twice + name + separator word + value; and a string value that spells such a
+//     sequence is cut into two members there.
+//
+// All of them are "changing a protected entry": none decodes to the same JSON value.
+func (L *prodLog) jsonTypeEdits(i int, yield func(edit)) {
+	line := L.lines[i]
+	v := &L.views[i]
+	ms := v.members
+	usable := func(m jsonMember) bool { return m.key != "integrity" && m.key != "chain" }
+	withVal := func(m jsonMember, val []byte) []byte {
+		return append(append(append([]byte{}, line[:m.valTok.from]...), val...), line[m.valTok.to:]...)
+	}
+	str := func(m jsonMember) (string, bool) {
+		var s string
+		if !m.valIsStr || json.Unmarshal(line[m.valTok.from:m.valTok.to], &s) != nil {
+			return "", false
+		}
+		return s, true
+	}
+	quote := func(s string) []byte {
+		b, _ := json.Marshal(s)
+		return b
+	}
+	for _, m := range ms {
+		if !usable(m) {
+			continue
+		}
+		tok := line[m.valTok.from:m.valTok.to]
+		if s, ok := str(m); ok {
+			if k := literalKind(s); k != "" {
+				yield(L.inPlace("json-retype-string-to-"+k, "val:"+regionName(m.key), i, withVal(m, []byte(s)), false))
+			}
+		} else if k := tokenKind(tok); k != "" {
+			yield(L.inPlace("json-retype-"+k+"-to-string", "val:"+regionName(m.key), i, withVal(m, quote(string(tok))), false))
+		}
+	}
+	// the members in the order of the authenticated bytes (the tag and the new-chain marker are not part of them)
+	var auth []jsonMember
+	names := map[string]bool{}
+	for _, m := range ms {
+		names[m.key] = true
+		if m.key == "integrity" || (m.key == "chain" && v.start) {
+			continue
+		}
+		auth = append(auth, m)
+	}
+	sort.SliceStable(auth, func(a, b int) bool { return auth[a].key < auth[b].key })
+	without := func(drop string, repl map[string][]byte) []byte {
+		var parts [][]byte
+		for _, m := range ms {
+			if m.key == drop {
+				continue
+			}
+			if r, ok := repl[m.key]; ok {
+				parts = append(parts, r)
+				continue
+			}
+			parts = append(parts, line[m.keyTok.from:m.valTok.to])
+		}
+		return append(append([]byte("{"), bytes.Join(parts, []byte(","))...), '}')
+	}
+	for k := 0; k < len(auth); k++ {
+		a := auth[k]
+		sa, ok := str(a)
+		if !ok || !usable(a) {
+			continue
+		}
+		// fold the next member into this value
+		if k+1 < len(auth) && usable(auth[k+1]) {
+			b := auth[k+1]
+			if sb, ok := str(b); ok && a.key != b.key {
+				nv := sa + sepWord + sepWord + b.key + sepWord + sb
+				repl := map[string][]byte{a.key: append(append(append([]byte{}, line[a.keyTok.from:a.keyTok.to]...), ':'), quote(nv)...)}
+				yield(L.inPlace("json-recut-member-moved-into-previous-value", "val:"+regionName(a.key)+"+"+regionName(b.key), i, without(b.key, repl), false))
+			}
+		}
+		// cut this value into two members
+		if p := strings.Index(sa, sepWord+sepWord); p >= 0 {
+			rest := sa[p+2*len(sepWord):]
+			if q := strings.Index(rest, sepWord); q > 0 {
+				name, tail := rest[:q], rest[q+len(sepWord):]
+				fits := name > a.key && !names[name] && name != "integrity" && name != "chain" && (k+1 == len(auth) || name < auth[k+1].key)
+				if fits {
+					two := append(append(append([]byte{}, line[a.keyTok.from:a.keyTok.to]...), ':'), quote(sa[:p])...)
+					two = append(append(append(append(two, ','), quote(name)...), ':'), quote(tail)...)
+					yield(L.inPlace("json-recut-value-cut-into-two-members", "val:"+regionName(a.key), i, without("", map[string][]byte{a.key: two}), false))
+				}
+			}
+		}
 	}
 }
 
